@@ -1,11 +1,60 @@
 //! Correspondence harness of property C14 (KZG multi-opening).
+//!
+//! * `sets …`   — the real `construct_intermediate_sets` (hook) on abstract, prover and verifier
+//!   queries against `Model/C14/Sets.lean`;
+//! * `prove …`  — the real `multi_open` with a known secret: challenges recorded, every proof element
+//!   compared with `Model/C14/Open.lean` (group elements through their discrete logarithms);
+//! * `verify …` — the real `multi_prepare`: the deferred dual MSM (scalars and bases, in order) and
+//!   the verdict of the pairing check against the model, for honest and corrupted inputs.
+//!
+//! Oracles (the property statement on the real code): honest openings verify; a wrong claim or an
+//! altered proof never verifies; a repeated (commitment, point) pair is refused.
 use mzkh::Ctx;
 
+mod cases;
+mod open;
 mod sets;
 mod tr;
 
 fn main() {
     let mut ctx = Ctx::from_args("C14");
-    sets::run(&mut ctx);
+    let thorough = !ctx.quick();
+    if !ctx.search() {
+        sets::run(&mut ctx);
+    }
+    cases::run_exhaustive(&mut ctx);
+
+    // structured base cases with the full corruption sweep
+    let mut rng = ctx.rng("open-structured");
+    let mut salt = 1u32;
+    for b in cases::structured_bases(&mut rng, thorough) {
+        salt += 1;
+        if let Some(p) = open::prove_base(&mut ctx, &b, salt, 2, &mut rng) {
+            let vq = p.built.vq.clone();
+            open::verify_case(&mut ctx, &b, &p, &vq, &open::Tamper::None, "honest", true);
+            cases::sweep(&mut ctx, &b, &p, &mut rng, None);
+        }
+    }
+    cases::shape_mismatch(&mut ctx, &mut rng, 500);
+    for b in cases::probe_bases(&mut rng) {
+        salt += 1;
+        if let Some(p) = open::prove_base(&mut ctx, &b, salt, 1, &mut rng) {
+            let vq = p.built.vq.clone();
+            open::verify_case(&mut ctx, &b, &p, &vq, &open::Tamper::None, "honest", true);
+        }
+    }
+
+    // random base cases up to 12 x 5 with a sampled corruption sweep
+    let mut rng = ctx.rng("open-random");
+    let nrand = if ctx.quick() { 60 } else if ctx.search() { 400 } else { 1200 };
+    for i in 0..nrand {
+        let b = cases::random_base(&mut rng, i);
+        if let Some(p) = open::prove_base(&mut ctx, &b, 100_000 + i as u32, 2, &mut rng) {
+            let vq = p.built.vq.clone();
+            open::verify_case(&mut ctx, &b, &p, &vq, &open::Tamper::None, "honest", true);
+            let bd = if ctx.quick() { 2 } else { 3 };
+            cases::sweep(&mut ctx, &b, &p, &mut rng, Some(bd));
+        }
+    }
     ctx.finish();
 }
